@@ -81,6 +81,10 @@ type InvSpec struct {
 	CliCtx  string
 	Trace   string
 	Delay   time.Duration // pause before arrival (after the previous outcome)
+	// SlowAfter/SlowPause: the caller reads its answer slowly (bounded receive buffer, pause after SlowAfter body
+	// bytes); the next planned caller may arrive as soon as this one's status line has arrived
+	SlowAfter int
+	SlowPause time.Duration
 }
 
 // actorState is engine bookkeeping per actor.
@@ -834,7 +838,11 @@ func (e *Engine) enabled() (acts []action, due time.Duration, hasDue bool) {
 		if consider(e.lastDone + spec.Delay) {
 			acts = append(acts, action{"caller", func() {
 				e.next++
-				e.w.Invoke(spec.Payload, spec.CliCtx, spec.Trace)
+				if spec.SlowPause > 0 {
+					e.w.InvokeSlow(spec.Payload, spec.CliCtx, spec.Trace, spec.SlowAfter, spec.SlowPause)
+				} else {
+					e.w.Invoke(spec.Payload, spec.CliCtx, spec.Trace)
+				}
 			}})
 		}
 	}
@@ -850,7 +858,7 @@ func (e *Engine) enabled() (acts []action, due time.Duration, hasDue bool) {
 
 func (e *Engine) callersIdle() bool {
 	for _, inv := range e.w.Invokes {
-		if inv.Call.Pending() {
+		if inv.Call.Pending() && !(inv.Call.SlowPause > 0 && inv.Call.GotStatus) {
 			return false
 		}
 	}
